@@ -139,6 +139,8 @@ WITNESSES = {
         "M 4 1 0 1 0", "M 5 2 0 2 0", "GC", "GC"]),
     "F5-blobs-without-manifest": (["gcdir"], {"C05", "C06"}, [
         "NEW 0 0 1 1 1", "B 3 1 oth", "GC", "M 3 1 0 1 0", "GC"]),
+    "F5b-foreign-file-keeps-directory": (["gcdir"], {"C05", "C06"}, [
+        "NEW 1 1 1 0 1", "X root", "GC", "B 4 0 raw", "M 4 1 0 1 0", "GC", "B 2 0 raw", "GC"]),
     "F7-sha384-directory": (["gcdir"], {"C06"}, [
         "NEW 0 0 1 0 1", "B 8 0 raw", "GC", "GC"]),
     "F6-pass-stops-at-failing-repository": (["gcpassdir"], {"C06"}, [
@@ -195,9 +197,9 @@ def check_C06(o, tier):
     _witnesses(o, "C06", profs, C06_MONITORS)
     _run(o, profs["gc"], "gc-random", {"VERIF_SEED": o.seed + 10, "VERIF_N": 8000 if quick else 150000}, C06_MONITORS)
     _run(o, profs["gcdir"], "gcdir-random", {"VERIF_SEED": o.seed + 11, "VERIF_N": 2000 if quick else 40000}, C06_MONITORS)
-    _run(o, profs["gcdir"], "gcdir-matrix", {"VERIF_SEED": o.seed + 12, "VERIF_N": 1280 if quick else 32000, "VERIF_MATRIX": 1}, C06_MONITORS)
+    _run(o, profs["gcdir"], "gcdir-matrix", {"VERIF_SEED": o.seed + 12, "VERIF_N": 1280 if quick else 16000, "VERIF_MATRIX": 1}, C06_MONITORS)
     _run(o, profs["gcpass"], "gcpass-random", {"VERIF_SEED": o.seed + 13, "VERIF_N": 400 if quick else 4000}, C06_MONITORS)
-    _run(o, profs["gcpassdir"], "gcpassdir-random", {"VERIF_SEED": o.seed + 14, "VERIF_N": 250 if quick else 3000}, C06_MONITORS)
+    _run(o, profs["gcpassdir"], "gcpassdir-random", {"VERIF_SEED": o.seed + 14, "VERIF_N": 250 if quick else 1200}, C06_MONITORS)
     o.cov["exhaustive"] = False
     for fn in EXTRA_C06:
         fn(o, tier)
